@@ -188,6 +188,9 @@ func init() {
 			rep.count("scenario:append-only-commit-with-open-readers", 1)
 		}
 		for i := 0; i < n; i++ {
+			if rep.outOfTime() {
+				break
+			}
 			hseed := r.Int63()
 			hr := rand.New(rand.NewSource(hseed))
 			cfg := gen.PickConfig(hr)
